@@ -3,7 +3,7 @@
    and ExtrOcamlZBigInt (positive, N, Z -> Big_int_Z.big_int).  Nothing else. *)
 From Coq Require Import Extraction ExtrOcamlBasic ExtrOcamlZBigInt.
 From Coq Require Import ZArith QArith List.
-From PyqspV Require Import Base.Ops Base.IntervalZ Base.TrigZ Model.LPolyM Model.LAlgM Model.QInst Model.ExprM Model.ConvM Model.ResponseM Model.PolyGenM Model.FPSearchM Model.Checkers.
+From PyqspV Require Import Base.Ops Base.IntervalZ Base.TrigZ Model.LPolyM Model.LAlgM Model.QInst Model.ExprM Model.ConvM Model.ResponseM Model.PolyGenM Model.FPSearchM Model.Checkers Model.Jac3M.
 
 Definition peval_q := @peval Q OpsQ.
 Definition geval_q := @geval Q OpsQ.
@@ -31,5 +31,6 @@ Extraction "model.ml" peval_q geval_q lp_get_q lp_norm2_q lp_degree_q lp_parity_
   fps_layout_q fp_prob_dists
   check_trig_acc check_trig_acc_mono check_inv_acc_scaled check_trig_acc_hi check_trig_acc_hi_cheb check_inv_acc_hi_cheb round_zeros_q
   check_infnorm_ub check_infnorm_lb
-  check_fp_closed fp_closed_norm check_y_bracket.
+  check_fp_closed fp_closed_norm check_y_bracket
+  jac3_dists.
 Cd "..".
